@@ -47,6 +47,7 @@ type interpreter struct {
 	scratch            map[int]uint64
 	models             []map[string]uint64 // recent solver models (feasibility cache)
 	modelNext          int
+	fnInfos            map[*ssa.Function]*fnInfo
 }
 
 type deferred struct {
@@ -61,7 +62,8 @@ type frame struct {
 	caller           *frame
 	fn               *ssa.Function
 	block, prevBlock *ssa.BasicBlock
-	env              map[ssa.Value]value // dynamic values of SSA variables
+	env              []value            // dynamic values of SSA variables, indexed by slots
+	slots            map[ssa.Value]int  // per-function numbering of SSA values (shared, read-only)
 	locals           []value
 	defers           *deferred
 	result           value
@@ -86,8 +88,14 @@ func (fr *frame) get(key ssa.Value) value {
 	case *ssa.Global:
 		return fr.i.globalAddr(key)
 	}
-	if r, ok := fr.env[key]; ok {
-		return r
+	if k, ok := fr.slots[key]; ok {
+		if r := fr.env[k]; r != nil {
+			return r
+		}
+		if _, isNilOK := key.(*ssa.Call); isNilOK {
+			return nil // a call without result used as a value never happens; keep nil
+		}
+		return nil
 	}
 	panic(fmt.Sprintf("get: no value for %T: %v", key, key.Name()))
 }
@@ -166,35 +174,35 @@ func visitInstr(fr *frame, instr ssa.Instruction) continuation {
 		// no-op
 
 	case *ssa.UnOp:
-		fr.env[instr] = unop(i, instr, fr.get(instr.X))
+		fr.env[fr.slots[instr]] = unop(i, instr, fr.get(instr.X))
 
 	case *ssa.BinOp:
-		fr.env[instr] = binop(i, instr.Op, instr.X.Type(), fr.get(instr.X), fr.get(instr.Y))
+		fr.env[fr.slots[instr]] = binop(i, instr.Op, instr.X.Type(), fr.get(instr.X), fr.get(instr.Y))
 
 	case *ssa.Call:
 		fn, args := prepareCall(fr, &instr.Call)
-		fr.env[instr] = call(fr.i, fr, instr.Pos(), fn, args)
+		fr.env[fr.slots[instr]] = call(fr.i, fr, instr.Pos(), fn, args)
 
 	case *ssa.ChangeInterface:
-		fr.env[instr] = fr.get(instr.X)
+		fr.env[fr.slots[instr]] = fr.get(instr.X)
 
 	case *ssa.ChangeType:
-		fr.env[instr] = fr.get(instr.X) // (can't fail)
+		fr.env[fr.slots[instr]] = fr.get(instr.X) // (can't fail)
 
 	case *ssa.Convert:
-		fr.env[instr] = conv(i, instr.Type(), instr.X.Type(), fr.get(instr.X))
+		fr.env[fr.slots[instr]] = conv(i, instr.Type(), instr.X.Type(), fr.get(instr.X))
 
 	case *ssa.SliceToArrayPointer:
-		fr.env[instr] = sliceToArrayPointer(instr.Type(), instr.X.Type(), fr.get(instr.X))
+		fr.env[fr.slots[instr]] = sliceToArrayPointer(instr.Type(), instr.X.Type(), fr.get(instr.X))
 
 	case *ssa.MakeInterface:
-		fr.env[instr] = iface{t: instr.X.Type(), v: fr.get(instr.X)}
+		fr.env[fr.slots[instr]] = iface{t: instr.X.Type(), v: fr.get(instr.X)}
 
 	case *ssa.Extract:
-		fr.env[instr] = fr.get(instr.Tuple).(tuple)[instr.Index]
+		fr.env[fr.slots[instr]] = fr.get(instr.Tuple).(tuple)[instr.Index]
 
 	case *ssa.Slice:
-		fr.env[instr] = slice(i, fr.get(instr.X), fr.get(instr.Low), fr.get(instr.High), fr.get(instr.Max))
+		fr.env[fr.slots[instr]] = slice(i, fr.get(instr.X), fr.get(instr.Low), fr.get(instr.High), fr.get(instr.Max))
 
 	case *ssa.Return:
 		switch len(instr.Results) {
@@ -266,10 +274,10 @@ func visitInstr(fr *frame, instr ssa.Instruction) continuation {
 		if instr.Heap {
 			// new
 			addr = new(value)
-			fr.env[instr] = addr
+			fr.env[fr.slots[instr]] = addr
 		} else {
 			// local
-			addr = fr.env[instr].(*value)
+			addr = fr.env[fr.slots[instr]].(*value)
 		}
 		*addr = zero(mustDeref(instr.Type()))
 
@@ -283,26 +291,26 @@ func visitInstr(fr *frame, instr ssa.Instruction) continuation {
 		for k := range slice {
 			slice[k] = zero(tElt)
 		}
-		fr.env[instr] = slice[:asInt64(i, fr.get(instr.Len))]
+		fr.env[fr.slots[instr]] = slice[:asInt64(i, fr.get(instr.Len))]
 
 	case *ssa.MakeMap:
-		fr.env[instr] = makeMap(instr.Type().Underlying().(*types.Map).Key(), 0)
+		fr.env[fr.slots[instr]] = makeMap(instr.Type().Underlying().(*types.Map).Key(), 0)
 
 	case *ssa.Range:
-		fr.env[instr] = rangeIter(i, fr.get(instr.X), instr.X.Type())
+		fr.env[fr.slots[instr]] = rangeIter(i, fr.get(instr.X), instr.X.Type())
 
 	case *ssa.Next:
-		fr.env[instr] = fr.get(instr.Iter).(iter).next()
+		fr.env[fr.slots[instr]] = fr.get(instr.Iter).(iter).next()
 
 	case *ssa.FieldAddr:
 		p := fr.get(instr.X).(*value)
 		if p == nil {
 			panic(targetPanic{"runtime error: invalid memory address or nil pointer dereference"})
 		}
-		fr.env[instr] = &(*p).(structure)[instr.Field]
+		fr.env[fr.slots[instr]] = &(*p).(structure)[instr.Field]
 
 	case *ssa.Field:
-		fr.env[instr] = fr.get(instr.X).(structure)[instr.Field]
+		fr.env[fr.slots[instr]] = fr.get(instr.X).(structure)[instr.Field]
 
 	case *ssa.IndexAddr:
 		x := fr.get(instr.X)
@@ -310,7 +318,7 @@ func visitInstr(fr *frame, instr ssa.Instruction) continuation {
 		switch x := x.(type) {
 		case []value:
 			k := i.indexIn(idx, len(x))
-			fr.env[instr] = &x[k]
+			fr.env[fr.slots[instr]] = &x[k]
 		case *value: // *array
 			if x == nil {
 				panic(targetPanic{"runtime error: invalid memory address or nil pointer dereference"})
@@ -318,10 +326,10 @@ func visitInstr(fr *frame, instr ssa.Instruction) continuation {
 			a := (*x).(array)
 			if t, ok := idx.(*Term); ok {
 				// symbolic index into a table: handled at the load, see tableRef
-				fr.env[instr] = i.symTableAddr(a, t, mustDeref(instr.X.Type()).Underlying().(*types.Array).Elem())
+				fr.env[fr.slots[instr]] = i.symTableAddr(a, t, mustDeref(instr.X.Type()).Underlying().(*types.Array).Elem())
 			} else {
 				k := i.indexIn(idx, len(a))
-				fr.env[instr] = &a[k]
+				fr.env[fr.slots[instr]] = &a[k]
 			}
 		default:
 			panic(fmt.Sprintf("unexpected x type in IndexAddr: %T", x))
@@ -334,20 +342,20 @@ func visitInstr(fr *frame, instr ssa.Instruction) continuation {
 		switch x := x.(type) {
 		case array:
 			if t, ok := idx.(*Term); ok {
-				fr.env[instr] = i.symTableLoad(x, t, instr.Type())
+				fr.env[fr.slots[instr]] = i.symTableLoad(x, t, instr.Type())
 			} else {
-				fr.env[instr] = x[i.indexIn(idx, len(x))]
+				fr.env[fr.slots[instr]] = x[i.indexIn(idx, len(x))]
 			}
 		case string:
-			fr.env[instr] = x[i.indexIn(idx, len(x))]
+			fr.env[fr.slots[instr]] = x[i.indexIn(idx, len(x))]
 		case symstr:
-			fr.env[instr] = x[i.indexIn(idx, len(x))]
+			fr.env[fr.slots[instr]] = x[i.indexIn(idx, len(x))]
 		default:
 			panic(fmt.Sprintf("unexpected x type in Index: %T", x))
 		}
 
 	case *ssa.Lookup:
-		fr.env[instr] = lookup(i, instr, fr.get(instr.X), fr.get(instr.Index))
+		fr.env[fr.slots[instr]] = lookup(i, instr, fr.get(instr.X), fr.get(instr.Index))
 
 	case *ssa.MapUpdate:
 		m := fr.get(instr.Map)
@@ -362,14 +370,14 @@ func visitInstr(fr *frame, instr ssa.Instruction) continuation {
 		}
 
 	case *ssa.TypeAssert:
-		fr.env[instr] = typeAssert(fr.i, instr, fr.get(instr.X).(iface))
+		fr.env[fr.slots[instr]] = typeAssert(fr.i, instr, fr.get(instr.X).(iface))
 
 	case *ssa.MakeClosure:
 		var bindings []value
 		for _, binding := range instr.Bindings {
 			bindings = append(bindings, fr.get(binding))
 		}
-		fr.env[instr] = &closure{instr.Fn.(*ssa.Function), bindings}
+		fr.env[fr.slots[instr]] = &closure{instr.Fn.(*ssa.Function), bindings}
 
 	case *ssa.Phi:
 		panic("unreachable") // phis are processed at block entry
@@ -539,7 +547,8 @@ func callSSA(i *interpreter, caller *frame, callpos token.Pos, fn *ssa.Function,
 		callpos: callpos,
 	}
 	if fn.Parent() == nil {
-		name := fn.String()
+		finfo := i.fnInfoOf(fn)
+		name := finfo.name
 		if fn.Synthetic == "package initializer" {
 			if caller != nil && caller.fn != nil && caller.fn.Synthetic == "package initializer" {
 				return nil // dependencies are initialised lazily
@@ -574,18 +583,20 @@ func callSSA(i *interpreter, caller *frame, callpos token.Pos, fn *ssa.Function,
 	}
 	i.path.noteFn(fn)
 
-	fr.env = make(map[ssa.Value]value)
+	info := i.fnInfoOf(fn)
+	fr.slots = info.slots
+	fr.env = make([]value, info.nslots)
 	fr.block = fn.Blocks[0]
 	fr.locals = make([]value, len(fn.Locals))
 	for k, l := range fn.Locals {
 		fr.locals[k] = zero(mustDeref(l.Type()))
-		fr.env[l] = &fr.locals[k]
+		fr.env[fr.slots[l]] = &fr.locals[k]
 	}
 	for k, p := range fn.Params {
-		fr.env[p] = args[k]
+		fr.env[fr.slots[p]] = args[k]
 	}
 	for k, fv := range fn.FreeVars {
-		fr.env[fv] = env[k]
+		fr.env[fr.slots[fv]] = env[k]
 	}
 	for fr.block != nil {
 		runFrame(fr)
@@ -655,7 +666,7 @@ func executePhis(fr *frame) []ssa.Instruction {
 			fr.phitemps = append(fr.phitemps, fr.get(phi.Edges[predIndex]))
 		}
 		for i, phi := range phis {
-			fr.env[phi.(*ssa.Phi)] = fr.phitemps[i]
+			fr.env[fr.slots[phi.(*ssa.Phi)]] = fr.phitemps[i]
 		}
 	}
 	return nonPhis
@@ -716,4 +727,44 @@ func shortStack() string {
 		lines = lines[:40]
 	}
 	return strings.Join(lines, "\n")
+}
+
+// fnInfo caches per-function facts that are expensive to recompute on every
+// call: the printed name (key of the intrinsic tables) and the numbering of
+// the function's SSA values (frame slots).
+type fnInfo struct {
+	name   string
+	slots  map[ssa.Value]int
+	nslots int
+}
+
+func (i *interpreter) fnInfoOf(fn *ssa.Function) *fnInfo {
+	if fi, ok := i.fnInfos[fn]; ok {
+		return fi
+	}
+	fi := &fnInfo{name: fn.String(), slots: map[ssa.Value]int{}}
+	add := func(v ssa.Value) {
+		if _, ok := fi.slots[v]; !ok {
+			fi.slots[v] = fi.nslots
+			fi.nslots++
+		}
+	}
+	for _, p := range fn.Params {
+		add(p)
+	}
+	for _, fv := range fn.FreeVars {
+		add(fv)
+	}
+	for _, l := range fn.Locals {
+		add(l)
+	}
+	for _, b := range fn.Blocks {
+		for _, in := range b.Instrs {
+			if v, ok := in.(ssa.Value); ok {
+				add(v)
+			}
+		}
+	}
+	i.fnInfos[fn] = fi
+	return fi
 }
